@@ -291,4 +291,21 @@ theorem reaches_final_aux {c : Cfg} {n : Nat} {input : List α} (hc : c.WF) (hn 
       obtain ⟨k, s'', hk, hf''⟩ := ih s' (Reachable.step hr ⟨a, ha⟩) (by omega)
       exact ⟨k + 1, s'', .cons ⟨a, ha⟩ hk, hf''⟩
 
+theorem runActs_reachable {c : Cfg} {n : Nat} {input : List α} (acts : List Act) {s s' : State α}
+    (hr : Reachable c n input s) (h : runActs c s acts = some s') : Reachable c n input s' := by
+  induction acts generalizing s with
+  | nil => simp [runActs] at h; subst h; exact hr
+  | cons a as ih =>
+    simp only [runActs] at h
+    split at h
+    · next s1 h1 => exact ih (Reachable.step hr ⟨a, h1⟩) h
+    · cases h
+
+/-- one producer, one consumer, one path: a complete schedule (used in the examples) -/
+def demoSched (c : Cfg) : List Act :=
+  [.pWait, .pLock, .pWrite, .pAdvTail, .pUnlock, .pPost,
+   .cWait 0, .cLock 0, .cTest 0, .cRead 0, .cAdvHead 0, .cUnlock 0, .cPost 0, .cReturn 0, .pFinishBegin] ++
+  List.replicate c.finishPosts .pFinishPost ++
+  [.pFinishEnd, .cWait 0, .cLock 0, .cTest 0, .cUnlock 0, .cPost 0, .cReturn 0]
+
 end YaraModel.Queue
